@@ -853,6 +853,57 @@ def c06_6(ck, prog):
                             'sibling) say "%s"' % (dict(zip(names, a)), side, t[a], want))
 
 
+GROUP_PATH_FILES = {'dbus/dbus-sysdeps-unix.c', 'dbus/dbus-credentials.c', 'dbus/dbus-userdb.c',
+                    'dbus/dbus-userdb-util.c', 'dbus/dbus-sysdeps-util-unix.c', 'bus/policy.c'}
+
+
+def c06_7(ck, prog):
+    r = ck.rule('C06.7', 'the group list a connection is judged by is complete: where the credential / group code '
+                'stores an element at index == its element count, the count is incremented right after (the '
+                'element is part of the list that is handed on); the peer\'s primary group is among them', 'PAIR',
+                breaks='a group the peer belongs to (e.g. its primary group) is dropped from its credentials: '
+                       '<policy group="..."> blocks for it are not applied', floor=1)
+    n = 0
+    for fn in lib.prod_funcs(prog, GROUP_PATH_FILES):
+        for bid, blk in fn.blocks.items():
+            evs = blk['events']
+            for i, ev in enumerate(evs):
+                if ev['ev'] != 'assign' or ev['e']['op'] != '=':
+                    continue
+                l = ev['e']['l']
+                if l.get('k') != 'sub' or not is_ref(l.get('idx')) or l['idx'].get('kind') != 'local':
+                    continue
+                cnt = l['idx']
+                # is the index variable a count that is handed on (passed to a callee / stored / returned)?
+                handed = False
+                incremented_somewhere = False
+                for b2, i2, e2 in fn.events():
+                    if e2['ev'] == 'call' and any(is_ref(a) and a.get('id') == cnt['id'] for a in e2['e']['args']) \
+                            and not (e2['e'].get('callee') or '').startswith('_dbus_verbose'):
+                        handed = True
+                    for lhs, how, rhs in written_lvalues(e2):
+                        if is_ref(lhs) and lhs.get('id') == cnt['id'] and how in ('++', '+='):
+                            incremented_somewhere = True
+                        if rhs is not None and isinstance(rhs, dict) and is_ref(rhs) and rhs.get('id') == cnt['id'] \
+                                and not is_ref(lhs):
+                            handed = True
+                if not handed:
+                    continue
+                # a loop cursor (for (i = 0; ...; i++)) is not a count: its store is followed by the loop's
+                # own increment in another block; a count is incremented in the storing block
+                follows = any(any(is_ref(lhs) and lhs.get('id') == cnt['id'] and how in ('++', '+=')
+                                  for lhs, how, rhs in written_lvalues(e3)) for e3 in evs[i + 1:])
+                n += 1
+                key = '%s:%s[%s]' % (fn.name, estr(l.get('base'))[:30], cnt['name'])
+                if follows:
+                    r.ok(key, {'site': '%s:%d' % (fn.file, ev['line'])})
+                else:
+                    r.violation(key, fn.name, fn.file, ev['line'],
+                                '%s stores an element at index %s (the count that is handed on) without incrementing '
+                                'the count afterwards: the element is not part of the list' % (fn.name, cnt['name']))
+    r.note('%d count-indexed stores examined' % n)
+
+
 def run(ck):
     ck.explanation = (
         'Static rules over bus/policy.c, bus/bus.c, bus/config-parser.c, bus/services.c, bus/activation.c: the '
@@ -874,3 +925,17 @@ def run(ck):
         c06_6(ck, prog)
         c06_6b(ck, prog)
         c06_6c(ck, prog)
+        c06_7(ck, prog)
+        # "requested reply" is what the policy's requested_reply qualifiers are evaluated against
+        from rules.C09 import c09_2
+        r8 = ck.rule('C06.8', 'a message is classified as a requested reply only when serial, receiver and sender '
+                     'of a pending call all match (shared with C09.2): send_requested_reply / '
+                     'receive_requested_reply rules are evaluated against this verdict', 'TS',
+                     breaks='a reply from a connection that was never called is judged by the rules for requested '
+                            'replies and delivered where the documented evaluation denies it', floor=4)
+        save = ck.rule
+        ck.rule = lambda *a, **k: r8
+        try:
+            c09_2(ck, prog)
+        finally:
+            ck.rule = save
